@@ -358,6 +358,8 @@ def _perturb(draw, e, names):
 
 def _literal(draw, names, ops):
     t = ["T", draw(st.sampled_from(list(names)))]
+    if "NOT" in ops and draw(st.integers(0, 9)) == 0:
+        return ["NOT", ["NOT", t]] if draw(st.booleans()) else ["NOT", ["NOT", ["NOT", t]]]
     return ["NOT", t] if "NOT" in ops and draw(st.booleans()) else t
 
 
@@ -369,6 +371,10 @@ def _simple_like(draw, names, ops, depth):
     if not binary:
         return _literal(draw, names, ops)
     e = [draw(st.sampled_from(binary)), _literal(draw, names, ops), _literal(draw, names, ops)]
+    if depth >= 3 and draw(st.integers(0, 3)) == 0:
+        # one operand is itself a small binary formula: (x op2 y) op z, possibly below a NOT
+        inner = [draw(st.sampled_from(binary)), _literal(draw, names, ops), _literal(draw, names, ops)]
+        e = [e[0], inner, e[2]] if draw(st.booleans()) else [e[0], e[1], inner]
     if depth >= 2 and "NOT" in ops and draw(st.integers(0, 3)) == 0:
         return ["NOT", e]
     return e
@@ -485,6 +491,8 @@ def model_specs(draw, profile: Profile, min_feats=1, max_feats=12, with_ctcs=Tru
         feats[i]["rels"] = rels
     if allow_wide and profile.wide and profile.group and draw(st.integers(0, 11)) == 0:
         _add_wide_group(draw, profile, feats, names)
+    if profile.layout == "free" and profile.group and draw(st.integers(0, 7)) == 0:
+        _add_sibling_groups(draw, profile, feats, names)
     ctcs = []
     if with_ctcs and profile.ctc_max and profile.simple_ops and n >= 2 and (
             ctc_mode == "structured" or many_ctcs or draw(st.integers(0, 4)) == 0):
@@ -500,6 +508,12 @@ def model_specs(draw, profile: Profile, min_feats=1, max_feats=12, with_ctcs=Tru
                 e = draw(expr_of_depth(names, profile.ctc_ops, draw(st.integers(0, profile.ctc_depth))))
             cname = profile.ctc_names(draw, j) if profile.ctc_names else f"C{j}"
             ctcs.append({"name": cname, "ast": e})
+    if ctcs and draw(st.integers(0, 7)) == 0:
+        # a second constraint with the same operators and the same operands in the same order, but another shape
+        src = draw(st.sampled_from(ctcs))
+        tw = _reshaped(src["ast"])
+        if tw is not None:
+            ctcs.append({"name": profile.ctc_names(draw, len(ctcs)) if profile.ctc_names else f"C{len(ctcs)}", "ast": tw})
     for c in ctcs:
         c["ast"] = cap_clause_cost(c["ast"])
     model = {"root": feats[0], "ctcs": ctcs}
@@ -509,6 +523,52 @@ def model_specs(draw, profile: Profile, min_feats=1, max_feats=12, with_ctcs=Tru
     if ctcs and draw(st.integers(0, 3)) == 0:
         model["share_nodes"] = True       # equal sub-trees of a constraint are one Node object (see build_node_shared)
     return model
+
+
+def _reshaped(e):
+    """Same pre-order operator list and same leaf sequence, different tree: (a op1 b) op2 c <-> a op1 (b op2 c), or the
+    NOT of a two-literal formula moved to the other operand (!a op b <-> a op !b)."""
+    if e[0] in logic.LEAF or len(e) != 3 or not logic.is_logical(e):
+        return None           # (re-associating a comparison or an arithmetic tree would not be well-typed)
+    op, l, r = e
+    if l[0] not in logic.LEAF and len(l) == 3:
+        return [l[0], l[1], [op, l[2], r]]
+    if r[0] not in logic.LEAF and len(r) == 3:
+        return [r[0], [op, l, r[1]], r[2]]
+    if l[0] == "NOT" and r[0] in logic.LEAF:
+        return [op, l[1], ["NOT", r]]
+    if r[0] == "NOT" and l[0] in logic.LEAF:
+        return [op, ["NOT", l], r[1]]
+    return None
+
+
+def _add_sibling_groups(draw, profile, feats, names):
+    """Two or three groups next to each other under one feature - of one kind (and often one cardinality) or of
+    different kinds: code that handles 'the group' of a feature, or merges neighbours that look alike, meets them here."""
+    host = feats[draw(st.sampled_from(sorted(feats)))]
+    taken = set(names)
+    same = draw(st.booleans())
+    kind = draw(st.sampled_from(profile.group))
+    bounds = None
+    new_rels = []
+    for g in range(draw(st.integers(2, 3))):
+        k = draw(st.integers(2, 3))
+        kids = []
+        for i in range(k):
+            nm = f"Sg{g}x{i}"
+            while nm in taken:
+                nm += "x"
+            taken.add(nm)
+            names.append(nm)
+            kids.append({"name": nm, "abstract": False, "ftype": profile.ftypes[0], "fcard": None, "attrs": [], "rels": []})
+        kd = kind if same else draw(st.sampled_from(profile.group))
+        lo, hi = GROUP_KINDS[kd](draw, k)
+        if same and bounds is not None and bounds[1] <= k and draw(st.booleans()):
+            lo, hi = bounds
+        bounds = (lo, hi)
+        new_rels.append({"min": lo, "max": hi, "children": kids})
+    pos = draw(st.integers(0, len(host["rels"])))
+    host["rels"][pos:pos] = new_rels
 
 
 def _add_wide_group(draw, profile, feats, names):
@@ -607,7 +667,12 @@ def _structured_ctcs(draw, root, ops, ctc_max):
     out = []
     for _ in range(draw(st.integers(1, max(1, ctc_max + 2))) if ctc_max < 40 else ctc_max):
         a, b = pair()
-        out.append((homogeneous or draw(st.sampled_from(forms)))(a, b))
+        e = (homogeneous or draw(st.sampled_from(forms)))(a, b)
+        if "NOT" in ops and draw(st.integers(0, 7)) == 0:
+            # a doubled negation on one literal (what a rewriting tool leaves behind): same meaning, other shape
+            i = draw(st.integers(1, len(e) - 1))
+            e = e[:i] + [["NOT", ["NOT", e[i]]]] + e[i + 1:]
+        out.append(e)
     return out
 
 
